@@ -1567,16 +1567,6 @@ impl Interp {
         }
         let what = format!("make_dir_in_dir({:?})", nm);
         let now = tick_to_fat(self.clock.get());
-        if self.dirs.len() >= max_d {
-            // the crate refuses mkdir while the directory table is full; the
-            // documentation is silent, so either outcome is accepted
-            if let Err(e) = &r {
-                if ek(e) == "TooManyOpenDirs" {
-                    info.refused = true;
-                    return;
-                }
-            }
-        }
         match parsed {
             RefName::DontCare => {}
             RefName::Invalid => {
